@@ -73,6 +73,13 @@ def generate(seed, tier):
             field["empty"] = True
         for name in pools:
             pools[name][0].extend(["", ""])
+    if fmt == "fixed" and swarm.random() < 0.08:
+        # the blank is not among the allowed characters: what about the padding?
+        spec["props"] = [["allowed characters", "33...126"]]
+    if fmt == "delimited" and swarm.random() < 0.08:
+        # blanks behind the item delimiter are skipped on reading: what about values that start with one?
+        spec["props"] = [["skip initial space", "true"]]
+        pools["t"][0].extend([" y", " y"])
     spec["encoding"] = swarm.choice(["utf-8", "utf-8", "ascii", "iso-8859-1"])
     if spec["encoding"] != "utf-8":
         # characters the target encoding cannot store: such a row passes validation but cannot be written
@@ -140,6 +147,11 @@ def execute(scenario):
     fs = simfs.SimFS(simfs.IoConfig.from_dict(scenario["io"]))
     linesep = fs.config.linesep
     features = ["format=" + fmt, "delimiter=" + spec["line_delimiter"]]
+    skips_blanks = ["skip initial space", "true"] in spec.get("props", [])
+    blank_not_allowed = ["allowed characters", "33...126"] in spec.get("props", [])
+    if skips_blanks and any(cell.startswith(" ") for row in rows for cell in row):
+        # one culprit explains whatever goes wrong with such values, so it is the whole signature
+        features = ["format=delimited", "skip-initial-space-and-a-value-starting-with-a-blank"]
     target = "out.txt" if scenario.get("target") == "path" else "<stream>"
     batches = scenario.get("batches") or [1] * len(rows)
     attempted = []  # data rows the writer was actually asked to validate, in order
@@ -338,8 +350,13 @@ def execute(scenario):
                 if twins:
                     # two accepted rows that differ only in how much of the padding the caller supplied
                     culprit.append("rows-differ-only-in-trailing-blanks")
+                if blank_not_allowed and any(len(cell) < width for row in accepted for cell, width in zip(row, tabular.widths(spec))):
+                    # a value shorter than its field was accepted, its padding is not made of allowed characters
+                    culprit = ["format=fixed", "padding-is-not-an-allowed-character"]
             else:
                 culprit.append("delimiter=" + spec["line_delimiter"])
+                if "skip-initial-space-and-a-value-starting-with-a-blank" in features:
+                    culprit = ["format=delimited", "skip-initial-space-and-a-value-starting-with-a-blank"]
             raise core.Violation("output-row-rejected-on-read-back", culprit, "output %r: %r" % (output_text, item[1]))
         returned.append(item[1])
     wanted_rows = accepted
